@@ -35,7 +35,7 @@ impl Cookie {
         match server_cookie {
             Some(server_cookie) => {
                 let server_cookie_len = server_cookie.len();
-                if (MINIMUM_SERVER_COOKIE_LENGTH..MAXIMUM_SERVER_COOKIE_LENGTH)
+                if (MINIMUM_SERVER_COOKIE_LENGTH..=MAXIMUM_SERVER_COOKIE_LENGTH)
                     .contains(&server_cookie_len)
                 {
                     self.server_cookie.replace(server_cookie);
